@@ -520,22 +520,55 @@ def rule_N3(ctx):
                               "switches to %s after testing %s" % (key(a), key(c0)), f.loc(c))
 
 
+def _slot_of(e):
+    """index expression (as a key) of a pointer to an element of bufs[]: &bufs[i], bufs + i, bufs"""
+    e = strip_casts(e)
+    if e["k"] == "ref" and e["name"] == "bufs":
+        return "0"
+    if e["k"] == "un" and e["op"] == "&":
+        x = strip_casts(e["e"])
+        if x["k"] == "sub" and key(strip_casts(x["base"])) == "bufs":
+            return key(strip_casts(x["idx"]))
+    if e["k"] == "bin" and e["op"] == "+" and key(strip_casts(e["l"])) == "bufs":
+        return key(strip_casts(e["r"]))
+    return None
+
+
 def rule_N4(ctx):
     ctx.begin("N4", floor=2, what="save / rotate / load order in bufs_switch")
-    f = ctx.prog.func("bufs_switch")
+    prog = ctx.prog
+    f = prog.func("bufs_switch")
     cfg = f.cfg
     moves = list(f.calls(("memcpy", "memmove")))
     if not moves:
         raise AnalysisBroken("bufs_switch: no rotation")
+    # the view of the outgoing buffer is saved by bufs_save() or by its statements written out:
+    # stores of the cursor fields into slot 0
     sv = list(f.calls("bufs_save"))
+    saved_fields = {}
+    for n, lv, op, rhs in stores(f.body):
+        if op == "=" and lv["k"] == "member" and lv["field"] in ("row", "off", "top", "left", "td"):
+            from ..util import resolve_local
+            b_ = strip_casts(resolve_local(f, strip_casts(lv["base"])))
+            if (b_["k"] == "sub" and key(strip_casts(b_["base"])) == "bufs" and cval(b_["idx"]) == 0) or \
+                    (lv.get("arrow") and _slot_of(b_) == "0"):
+                saved_fields.setdefault(lv["field"], []).append(n)
+    want_fields = set()
+    if prog.has_func("bufs_save"):
+        for n, lv, op, rhs in stores(prog.func("bufs_save").body):
+            if lv["k"] == "member":
+                want_fields.add(lv["field"])
+    want_fields = want_fields or {"row", "off", "top"}
     ld = list(f.calls("bufs_load"))
     for m in moves:
-        if any(cfg.dominates(s, m) for s in sv):
+        inline_ok = want_fields and all(any(cfg.dominates(s_, m) for s_ in saved_fields.get(fl, []))
+                                        for fl in want_fields)
+        if any(cfg.dominates(s_, m) for s_ in sv) or inline_ok:
             ctx.ok("bufs_switch", "view saved before the rotation", loc=f.loc(m))
         else:
             ctx.violation("bufs_switch", "view saved before the rotation",
-                          "a block move is not dominated by bufs_save: the outgoing buffer "
-                          "loses its position", f.loc(m))
+                          "a block move is not dominated by bufs_save (or by stores of %s into slot 0): "
+                          "the outgoing buffer loses its position" % sorted(want_fields), f.loc(m))
         if any(cfg.postdominates(l, m) for l in ld):
             ctx.ok("bufs_switch", "view loaded after the rotation", loc=f.loc(m))
         else:
@@ -543,17 +576,18 @@ def rule_N4(ctx):
                           "a block move is not post-dominated by bufs_load", f.loc(m))
     # rotation shape: tmp <- [idx]; [1..idx] <- [0..idx-1]; [0] <- tmp
     idx = f.params[0]["name"]
-    ks = [(c["fn"], key(strip_casts(c["args"][0])), key(strip_casts(c["args"][1]))) for c in moves]
-    want_src = "(&bufs[%s])" % idx
-    first = [k for k in ks if k[2] == want_src]
-    mid = [k for k in ks if k[1] == "(&bufs[1])" and k[2] == "(&bufs[0])"]
-    last = [k for k in ks if k[1] == "(&bufs[0])" and k[2].startswith("(&") and "bufs" not in k[2]]
-    if first and mid and last:
+    ks = [(c["fn"], _slot_of(c["args"][0]), _slot_of(c["args"][1]), key(strip_casts(c["args"][0])),
+           key(strip_casts(c["args"][1]))) for c in moves]
+    first = [k for k in ks if k[2] == idx and k[1] is None]
+    mid = [k for k in ks if k[1] == "1" and k[2] == "0"]
+    last = [k for k in ks if k[1] == "0" and k[2] is None]
+    if first and mid and last and first[0][3] == last[0][4]:
         ctx.ok("bufs_switch", "rotation moves slot idx to the front, others down by one")
     else:
         ctx.violation("bufs_switch", "rotation shape",
-                      "expected tmp<-[idx], [1..]<-[0..], [0]<-tmp; found %s" % ks, f.loc(moves[0]))
-    shf = ctx.prog.func("bufs_shift")
+                      "expected tmp<-[idx], [1..]<-[0..], [0]<-tmp; found %s" % [(k[0], k[3], k[4]) for k in ks],
+                      f.loc(moves[0]))
+    shf = prog.func("bufs_shift")
     if any(True for _ in shf.calls("bufs_load")):
         ctx.ok("bufs_shift", "view loaded after deleting the front buffer")
     else:
@@ -564,12 +598,25 @@ def rule_N4(ctx):
 def rule_N5(ctx):
     ctx.begin("N5", floor=5, what="view fields saved = loaded = initialised")
     prog = ctx.prog
-    sv, ld, it = prog.func("bufs_save"), prog.func("bufs_load"), prog.func("bufs_init")
+    ld, it = prog.func("bufs_load"), prog.func("bufs_init")
+    from ..util import resolve_local
+
+    def is_slot0(g, base):
+        b_ = strip_casts(resolve_local(g, strip_casts(base)))
+        if b_["k"] == "sub" and key(strip_casts(b_["base"])) == "bufs" and cval(b_["idx"]) == 0:
+            return True
+        return _slot_of(b_) == "0"
+    # the saver: bufs_save, or whoever stores the view globals into slot 0 (the helper written out)
     saved = {}
-    for n, lv, op, rhs in stores(sv.body):
-        lf = lv_field(lv)
-        if lf and lf[0] == "buf" and op == "=" and "bufs[0]" in key(lv):
-            saved[lf[1]] = key(strip_casts(rhs))
+    cands = [prog.func("bufs_save")] if prog.has_func("bufs_save") else \
+        [g for g in prog.funcs.values() if g.file == "ex.c" and g.name not in ("bufs_init", "bufs_load")]
+    for sv in cands:
+        for n, lv, op, rhs in stores(sv.body):
+            lf = lv_field(lv)
+            r_ = strip_casts(rhs) if rhs is not None else None
+            if lf and lf[0] == "buf" and op == "=" and lv["k"] == "member" and is_slot0(sv, lv["base"]) \
+                    and r_ is not None and r_["k"] == "ref" and r_.get("cat") in ("global", "sglobal"):
+                saved[lf[1]] = key(r_)
     loaded = {}
     for n, lv, op, rhs in stores(ld.body):
         r = strip_casts(rhs) if rhs else None
